@@ -11,6 +11,7 @@ package guardiand
 // deadline of 10 s: a handler that stalls is reported, never waited for.
 
 import (
+	"bytes"
 	"bufio"
 	"context"
 	"encoding/hex"
@@ -325,7 +326,9 @@ func verifC17History(r *verifC17Rng, idx int, script []verifC17Step) *verifC17Ro
 		row.Fill = append(row.Fill, f)
 		queues[vaa.ChainID(c)] = ch
 	}
-	txs := [][]byte{{0xe5, 0x9c, 0x1b, 0xe5, 0x0b, 0xe7, 0xe4, 0x7e}, {0xe5, 0x9c}, {}, {0x6e, 0xf0, 0xa6, 0xba, 0x47, 0x3d, 0x34, 0x51}}
+	txs := [][]byte{{0xe5, 0x9c, 0x1b, 0xe5, 0x0b, 0xe7, 0xe4, 0x7e}, {0xe5, 0x9c}, {}, {0x6e, 0xf0, 0xa6, 0xba, 0x47, 0x3d, 0x34, 0x51},
+		// ids that only a full-length comparison tells apart: a trailing zero byte, a 32-byte id and longer ids that start with it
+		{0xe5, 0x9c, 0x00}, bytes.Repeat([]byte{0xa7}, 32), append(bytes.Repeat([]byte{0xa7}, 32), 0x01), append(bytes.Repeat([]byte{0xa7}, 32), 0x00, 0x00)}
 	core, logs := observer.New(zap.InfoLevel)
 	clk := &verifC17Clock{now: verifC17Base, tickC: make(chan time.Time), mock: clock.NewMock(), stop: make(chan struct{})}
 	clk.mock.Set(verifC17Base)
